@@ -50,3 +50,12 @@ claim('C10', 'z3 query over the finite transition relation read from the current
       'quick / 6 thorough) followed by a header whose name bytes (3..8) and dot count (0..4) are symbolic: z3 decides '
       'accepted <=> allowed by the specification, record id/level, and that rejection is a DiffXParseError.',
       BASE_NOTE, 'DESIGN.md section 4, C10; section 3 (REF_HIER)')
+
+claim('C04', 'inductive-step symbolic execution: one real writer call / one extracted reader loop iteration from an arbitrary valid state (encoding stack chosen symbolically), symbolic content decoded by the codec model, z3',
+      'Writer: one call from an arbitrary valid (_prev_section, _stack) state; reader: the loop body of iter_sections '
+      'lifted from the current source and run from an arbitrary state satisfying Inv_r. z3 shows that the bytes '
+      'written / text read use the own encoding else the nearest declaring ancestor (diff never inherits), and that '
+      'the post-state satisfies the invariant again -- hence every nesting history, not only bounded ones. Encoding '
+      'names with symbolic spelling are shown to reach the stack verbatim.',
+      BASE_NOTE + ' If the named internals disappear the step is skipped (recorded) and C01 history bounds apply.',
+      'DESIGN.md section 4, C04; Appendix A')
